@@ -232,6 +232,22 @@ def rule_cache(ctx):
             if len(dvals) == 1 and len(fl_.defs(ff[0].args[0].id, enclosing_stmt(ff[0]))) >= 1 \
                     and all(d_ != "param" and isinstance(d_, ast.Assign) for d_ in fl_.defs(ff[0].args[0].id, enclosing_stmt(ff[0]))):
                 want_atom = "os.path.exists(%s)" % dvals.pop()
+        if isinstance(ff[0].args[0], ast.Name):
+            # the file read after a download is the file download_tile stores: on the way from the download to the read the name read is
+            # not left pointing at another candidate (a lower-case fall-back tried before the download)
+            fl2_ = Flow(f)
+            rd_ = enclosing_stmt(ff[0])
+            alld_ = [d_ for d_ in fl2_.defs(ff[0].args[0].id, rd_) if d_ != "param" and isinstance(d_, ast.Assign)]
+            vals_ = {str(norm(d_.value)) for d_ in alld_}
+            if len(vals_) > 1:
+                dst_ = enclosing_stmt(dl[0])
+                after_dl = [d_ for d_ in alld_ if fl2_._order(d_) > fl2_._order(dst_)]
+                canonical = [v_ for v_ in vals_ if ".upper()" in v_]
+                ok_after = bool(after_dl) and all(str(norm(d_.value)) in canonical for d_ in after_dl)
+                ctx.ob("SRTM30.get_tile.read_downloaded", ok_after, "the name read is bound to %d different paths: %s; re-bound after the download: %s" % (
+                    len(vals_), sorted(v_[:60] for v_ in vals_), [str(norm(d_.value))[:50] for d_ in after_dl] or "no"),
+                    "after download_tile(name) the file read is <NAME>.DEM, the file it stores - whatever other spelling was probed before",
+                    node=rd_, func=f, witness=None if ok_after else {"cache": "empty", "first request": "FileNotFoundError", "second request": "succeeds"})
         tt_ok = want_atom in atoms
         if tt_ok:
             for vals in itertools.product([False, True], repeat=len(atoms)):
@@ -511,6 +527,8 @@ def rule_lonnorm(ctx):
                 break
         if rect is not None and rect[0] == 0 and rect[2] == 1:
             w, e = rect[1], rect[3]
+        if w is None or e is None:
+            raise AnalysisError("get_tiles: the normalised longitudes handed to the overlap test could not be evaluated (lon = %s)" % x)
         if -180 <= x < 180 and w != x and bad_w is None:
             bad_w = {"lon_min": str(x), "normalised to": str(w)}
         if -180 < x <= 180 and e != x and bad_e is None:
